@@ -107,42 +107,33 @@ func (cm *CMap) parseCodeSpaceRange(content string) error {
 	// Parse the first code range to determine byte width
 	// Format: <low> <high>
 	// Example: <0000> <FFFF> means 2-byte codes (4 hex digits = 2 bytes)
-	lines := strings.Split(section, "\n")
-	for _, line := range lines {
-		line = strings.TrimSpace(line)
-		if line == "" {
-			continue
+	// The two hex strings may be separated by any white space, including line
+	// breaks, so the section is scanned as a whole rather than line by line.
+	var hexStrings []string
+	startIdx := 0
+	for len(hexStrings) < 2 {
+		idx := strings.Index(section[startIdx:], "<")
+		if idx == -1 {
+			break
 		}
-
-		// Find hex strings
-		var hexStrings []string
-		startIdx := 0
-		for {
-			idx := strings.Index(line[startIdx:], "<")
-			if idx == -1 {
-				break
-			}
-			idx += startIdx
-			endIdx := strings.Index(line[idx:], ">")
-			if endIdx == -1 {
-				break
-			}
-			endIdx += idx
-
-			hexStr := line[idx+1 : endIdx]
-			hexStrings = append(hexStrings, hexStr)
-			startIdx = endIdx + 1
+		idx += startIdx
+		endIdx := strings.Index(section[idx:], ">")
+		if endIdx == -1 {
+			break
 		}
+		endIdx += idx
 
-		if len(hexStrings) >= 2 {
-			// Determine byte width from first hex string length
-			hexLen := len(hexStrings[0])
-			// Each 2 hex digits = 1 byte
-			cm.byteWidth = hexLen / 2
-			if hexLen%2 != 0 {
-				cm.byteWidth = (hexLen + 1) / 2
-			}
-			break // We got what we needed
+		hexStrings = append(hexStrings, section[idx+1:endIdx])
+		startIdx = endIdx + 1
+	}
+
+	if len(hexStrings) >= 2 {
+		// Determine byte width from first hex string length
+		hexLen := len(hexStrings[0])
+		// Each 2 hex digits = 1 byte
+		cm.byteWidth = hexLen / 2
+		if hexLen%2 != 0 {
+			cm.byteWidth = (hexLen + 1) / 2
 		}
 	}
 
